@@ -48,7 +48,8 @@ Range(s) == {s[i] : i \in 1 .. Len(s)}
 \* C02 / C20: exactly the values of the synchronous semantics, each once, in order
 OnlyExpected == \A i \in 1 .. Len(delivered) : delivered[i] \in 1 .. ND
 NoDuplicate == \A i, j \in 1 .. Len(delivered) : i # j => delivered[i] # delivered[j]
-InOrder == Ordered => \A i \in 1 .. Len(delivered) : delivered[i] = i
+\* (relative order; that nothing is missing is Complete, checked at the end)
+InOrder == Ordered => \A i, j \in 1 .. Len(delivered) : i < j => delivered[i] < delivered[j]
 \* C04: no completion callback while anything derived from the element is undelivered or still being handled
 CbSafe == \A i \in 1 .. Len(fired) : \A k \in 1 .. ND : fired[i] \in Lineage[k] => k \in consumed
 \* C04: never for an element whose processing raised
